@@ -20,8 +20,10 @@ def with_static(t):
     return rg.rust(t).replace("&", "&'static ")
 
 
-def build_batch(types, external=()):
-    """external: names that are used but deliberately NOT defined in the project (foreign types, e.g. mapped ones)"""
+def build_batch(types, external=(), spelling=None):
+    """external: names that are used but deliberately NOT defined in the project (foreign types, e.g. mapped ones);
+    spelling: None, or one of rg.SPELLINGS — the probe types are then written with path-qualified names (std::vec::Vec<..>,
+    crate::Named), which denote the same types"""
     src = [rg.PRELUDE, "use tauri::{AppHandle, Emitter, ipc::Channel};\n\n",
            rg.struct_src("Named", [("a", "i32")]),
            rg.command_src("use_named", [("n", "Named")], "Named")]
@@ -30,10 +32,12 @@ def build_batch(types, external=()):
         used |= rg.named_in(t)
     for nm in sorted(used - {"Named"} - set(external)):
         src.append(rg.struct_src(nm, [("a", "i32")]))
+    q = lambda text: rg.qualify(text, spelling, used - set(external))
     for (i, t) in types:
-        r = rg.rust(t)
-        src.append(rg.struct_src("F%d" % i, [("v", with_static(t))]))
-        src.append(rg.command_src("cmd_%d" % i, [("p", r), ("f", "F%d" % i), ("ch", "Channel<%s>" % with_static(t))], with_static(t)))
+        r = q(rg.rust(t))
+        ws = q(with_static(t))
+        src.append(rg.struct_src("F%d" % i, [("v", ws)]))
+        src.append(rg.command_src("cmd_%d" % i, [("p", r), ("f", "F%d" % i), ("ch", "Channel<%s>" % ws)], ws))
         src.append("pub fn ev_%d(app: AppHandle, x: %s) {\n    app.emit(\"e%d\", x).unwrap();\n}\n\n" % (i, r, i))
     return [("lib.rs", "".join(src))]
 
@@ -159,8 +163,9 @@ def accept(t, site, mode, got):
 
 
 def run_batch(a):
-    cli, types, mode = a
-    files = build_batch(types)
+    cli, types, mode = a[:3]
+    spelling = a[3] if len(a) > 3 else None
+    files = build_batch(types, spelling=spelling)
     g = proj.generate(cli, files, mode=mode, tag="c05")
     try:
         if g.run.timed_out:
@@ -217,10 +222,18 @@ def run(tier):
     jobs = []
     for mode in ("none", "zod"):
         for k in range(0, len(types), BATCH):
-            jobs.append((cli, types[k:k + BATCH], mode))
+            jobs.append((cli, types[k:k + BATCH], mode, None))
+    # the same expressions spelled through paths (std::vec::Vec<..>, crate::Named): the exhaustive chains in every spelling,
+    # the sampled rest in one spelling per batch
+    for mode in ("none", "zod"):
+        for k in range(0, len(types), BATCH):
+            for si, sp in enumerate(rg.SPELLINGS):
+                if k < exhaustive_n or (k // BATCH) % len(rg.SPELLINGS) == si:
+                    jobs.append((cli, types[k:k + BATCH], mode, sp))
     results = common.pmap(run_batch, jobs)
     for (job, res) in zip(jobs, results):
         mode = job[2]
+        spelling = job[3]
         if "inconclusive" in res:
             v.inconclusive.append("batch hit watchdog")
             continue
@@ -232,16 +245,23 @@ def run(tier):
             continue
         v.count("sites_compared_%s" % mode, res["n"])
         v.count("sites_equal_%s" % mode, res["ok"])
+        if spelling:
+            v.count("sites_compared_with_path-qualified_spelling_%s" % spelling, res["n"])
         for (i, t) in job[1]:
             for s in SITES:
-                v.case((mode, s, rg.rust(t)), nontrivial=rg.depth(t) >= 1)
+                v.case((mode, s, rg.rust(t), spelling), nontrivial=rg.depth(t) >= 1)
         for (i, site, got, note) in res["bad"]:
             t = tmap[i]
             sigs = defects.classify_c05(t, site, mode, got, note)
             what = "%s site, %s mode: Rust type `%s` expected %s but emitted %s %s" % (
                 site, mode, rg.rust(t), sh.show(rg.M(t)), sh.show(got) if got else "<nothing usable>", note)
+            if spelling:
+                what += " [written path-qualified (%s): `%s`]" % (spelling, rg.qualify(rg.rust(t), spelling, rg.named_in(t)))
             for cls in sigs:
-                v.violation("C05 " + cls, what, proj.witness_of(build_batch([(i, t)]), mode, extra={"type": rg.rust(t), "site": site}))
+                # a fault that only the qualified spelling shows gets its own signature; one the plain spelling shows too keeps the plain one
+                modelled = cls.startswith(("ts-text ", "zod-schema "))     # output equals a recorded defect model exactly: same defect, same signature
+                v.violation("C05 " + cls + (" spelling=path-qualified" if spelling and not modelled else ""), what,
+                            proj.witness_of(build_batch([(i, t)], spelling=spelling), mode, extra={"type": rg.rust(t), "site": site, "spelling": spelling}))
     v.samples = [{"type": rg.rust(t), "expected": sh.show(rg.M(t))} for (i, t) in types[:: max(1, len(types) // 8)]][:8]
     v.extra["exhaustive_chain_depth"] = maxd
     v.extra["exhaustive_chain_expressions"] = exhaustive_n
